@@ -99,7 +99,7 @@ def rejected_set(ex, pos, rng):
     """A set_cells call that must be rejected as a whole: valid cells (among them cells beyond the used ranges), then a cell that
     cannot exist. -> True when the library rejected the call with its own exception class."""
     pre = [mk_cell(pos[c], 77, rng.randint(0, 3)) for c in rng.sample(['S1F4', 'S2C3', 'S1A1', 'S1B2'], rng.randint(0, 2))]
-    bad = rng.choice([lambda: Cell('No such sheet', 0, 0, 1), lambda: Cell(0, 'A', '0', 1)])()
+    bad = rng.choice([lambda: Cell('No such sheet', 0, 0, 1), lambda: Cell(0, 'A', '0', 1), lambda: Cell(0, True, 50, 5)])()       # the last one: a truth value as a column number
     try:
         ex.set_cells(pre + [bad])
     except repo.E2PyclException:
